@@ -4,9 +4,15 @@ f="$1"
 case "$f" in
  *_test.go)
    export GOFLAGS=-mod=mod GOPROXY=off GOSUMDB=off GOTOOLCHAIN=local
-   pkg=$(sed -n 's|^// replay-package: ||p' "$f"); name=$(sed -n 's|^// replay-test: ||p' "$f")
+   pkg=$(sed -n 's|^// replay-package: ||p' "$f"); name=$(sed -n 's|^// replay-test: ||p' "$f"); gen=$(sed -n 's|^// replay-specgen: ||p' "$f")
    ov=$(mktemp /var/tmp/ovXXXX.json)
-   echo "{\"Replace\": {\"/repo/$pkg/zz_govc_replay_test.go\": \"$f\"}}" > $ov
+   sg="${f%_test.go}_specgen.go.txt"
+   if [ -n "$gen" ] && [ -f "$sg" ]; then
+     # the contract's spec functions (evaluating helpers) join the package for this run only
+     echo "{\"Replace\": {\"/repo/$pkg/zz_govc_replay_test.go\": \"$f\", \"/repo/$pkg/$gen\": \"$sg\"}}" > $ov
+   else
+     echo "{\"Replace\": {\"/repo/$pkg/zz_govc_replay_test.go\": \"$f\"}}" > $ov
+   fi
    (cd /repo && go test -overlay $ov -vet=off -timeout 60s -count=1 -run "^$name\$" ./$pkg); rc=$?
    rm -f $ov; exit $rc;;
  *) cat "$f";;
